@@ -8,3 +8,11 @@ Lemma srce_eval_node root pe fe rec ras n p st :
 Proof.
   unfold SrcE.eval_node, eval_node. destruct ras; cbn [andb]; [destruct (safe (nflags n)); reflexivity|reflexivity].
 Qed.
+
+(* round 7: Config.check_missing, EvalContext.evaluate and Config.__init__ - the scan runs on the tree the caller passed, before the copy;
+   the copy is what is evaluated, by a fresh context (no safety requirement, empty memo) *)
+Lemma srce_check_missing t : SrcE.check_missing t = check_missing t.
+Proof. reflexivity. Qed.
+
+Lemma srce_config pe fe t : SrcE.config pe fe t = config pe fe t.
+Proof. unfold SrcE.config, SrcE.evaluate, config. rewrite srce_check_missing. reflexivity. Qed.
